@@ -1,6 +1,8 @@
 (** C19 (c) -- the index-order sequential run of the generated threads equals the kernel's own sequential
     definition: the functional terms of Gen/Kernels.v (generated from the same source by py2coq.KernelTranslator).
-    Proved for extract_tim, extract_bpass and dedisperse; the other kernels are tied by the correspondence run. *)
+    Proved for extract_tim, extract_bpass, mask_channels, dedisperse, subband and invert_freq; remove_zerodm and the online
+    moments have no functional twin in Gen/Kernels.v, the decimators carry np.empty/divcast plumbing: those are tied by the
+    correspondence run only. *)
 From Coq Require Import ZArith List Bool Lia.
 Require Import SPP.Base.Rt SPP.Base.Iter SPP.Gen.Kernels.
 Require Import SPP.Model.C19_Prog SPP.Gen.C19Threads SPP.Model.C19_Footprints SPP.Proofs.C19_sched.
@@ -162,4 +164,75 @@ Proof. unfold subband_threads, subband_trip, subband_run.
       + split; [exact Hfr2|]. intro k'. rewrite Hout2, Nat2Z.id.
         replace (Z.to_nat (i + 1)) with (S (Z.to_nat i)) by lia. cbn [iter]. rewrite Z2Nat.id by lia.
         unfold F at 1. unfold G. rewrite !iter_accum. f_equal. unfold arr_of. apply Hout. }
+  unfold I in H. destruct H as [_ H]. rewrite Nat2Z.id in H. apply H. Qed.
+
+(** a scatter loop respects pointwise equality of the incoming array *)
+Lemma iter_upd_ext n (w v : Z -> Z) : forall (a1 a2 : arr), (forall k, a1 k = a2 k) ->
+  forall k, iter n (fun i a => upd a (w i) (v i)) a1 k = iter n (fun i a => upd a (w i) (v i)) a2 k.
+Proof. induction n as [|n IH]; intros a1 a2 E k; cbn [iter]; [apply E|].
+  unfold upd at 1 3. destruct (k =? w (Z.of_nat n)); [reflexivity|]. now apply IH. Qed.
+
+(** * mask_channels *)
+Lemma mask_channels_seq maskvalue nchans nsamps m k :
+  seq_run (mask_channels_threads maskvalue nchans nsamps) m (mask_channels_ID_array, k) =
+  mask_channels_run (arr_of m mask_channels_ID_array) (arr_of m mask_channels_ID_mask) maskvalue nchans nsamps k.
+Proof. unfold mask_channels_threads, mask_channels_trip, mask_channels_run.
+  set (mask := arr_of m mask_channels_ID_mask).
+  set (G := fun ichan isamp (array : arr) => upd array (nchans * isamp + ichan) maskvalue).
+  set (F := fun ichan (array : arr) => if negb (mask ichan =? 0) then iter (Z.to_nat nsamps) (G ichan) array else array).
+  pose (I := fun (j : Z) (m' : mem) => (forall l, fst l <> mask_channels_ID_array -> m' l = m l) /\
+              forall k, m' (mask_channels_ID_array, k) = iter (Z.to_nat j) F (arr_of m mask_channels_ID_array) k).
+  assert (H : I (Z.of_nat (Z.to_nat nchans)) (seq_run (threads_of (mask_channels_thread maskvalue nchans nsamps) (Z.to_nat nchans)) m)).
+  { apply seq_run_threads_inv.
+    - split; [reflexivity|]. intro; reflexivity.
+    - intros i m' Hi [Hfr Hout]. unfold mask_channels_thread, mask_channels_body. rewrite run1_thread_of.
+      cbn [bind rd exec]. rewrite (Hfr (mask_channels_ID_mask, i)) by discriminate.
+      change (m (mask_channels_ID_mask, i)) with (mask i).
+      assert (HS : forall k', iter (Z.to_nat (i + 1)) F (arr_of m mask_channels_ID_array) k' =
+                              F i (iter (Z.to_nat i) F (arr_of m mask_channels_ID_array)) k').
+      { intro k'. replace (Z.to_nat (i + 1)) with (S (Z.to_nat i)) by lia. cbn [iter]. rewrite Z2Nat.id by lia. reflexivity. }
+      unfold I. destruct (negb (mask i =? 0)) eqn:Em.
+      + rewrite exec_bind. rewrite exec_bind. cbn [exec snd].
+        match goal with |- context [exec (for_ ?n ?b ?s) m'] =>
+          pose proof (exec_for_inv n b (fun j _ m'' => (forall l, fst l <> mask_channels_ID_array -> m'' l = m l) /\
+              forall k, m'' (mask_channels_ID_array, k) = iter (Z.to_nat j) (G i) (arr_of m' mask_channels_ID_array) k) s m') as HI end.
+        cbv beta in HI. destruct HI as [Hfr2 Hout2].
+        * split; [exact Hfr|]. intro; reflexivity.
+        * intros j t m'' Hj [Hf Ho]. cbn [exec bind rd wr fst snd]. split.
+          -- intros l Hl. rewrite mupd_off by assumption. now apply Hf.
+          -- intro k'. rewrite mupd_at. replace (Z.to_nat (j + 1)) with (S (Z.to_nat j)) by lia. cbn [iter].
+             rewrite Z2Nat.id by lia. unfold G at 1, upd. destruct (k' =? nchans * j + i); [reflexivity|apply Ho].
+        * split; [exact Hfr2|]. intro k'. rewrite Hout2, Nat2Z.id, HS. unfold F at 1. rewrite Em.
+          unfold G. apply iter_upd_ext. intro. unfold arr_of. apply Hout.
+      + cbn [bind exec snd]. split; [exact Hfr|]. intro k'. rewrite HS. unfold F at 1. rewrite Em. apply Hout. }
+  unfold I in H. destruct H as [_ H]. rewrite Nat2Z.id in H. apply H. Qed.
+
+(** * invert_freq (the fresh output array starts with whatever the memory holds there: np.empty_like) *)
+Lemma invert_freq_seq nchans nsamps m k :
+  seq_run (invert_freq_threads nchans nsamps) m (invert_freq_ID_outarray, k) =
+  invert_freq_run (arr_of m invert_freq_ID_outarray) (arr_of m invert_freq_ID_array) nchans nsamps k.
+Proof. unfold invert_freq_threads, invert_freq_trip, invert_freq_run. cbv zeta.
+  set (array := arr_of m invert_freq_ID_array).
+  set (G := fun isamp k1 (outarray : arr) => upd outarray (nchans * isamp + k1) (array (nchans * (isamp + 1) - 1 - k1))).
+  set (F := fun isamp (outarray : arr) => iter (Z.to_nat (nchans * (isamp + 1) - nchans * isamp)) (G isamp) outarray).
+  pose (I := fun (j : Z) (m' : mem) => (forall l, fst l <> invert_freq_ID_outarray -> m' l = m l) /\
+              forall k, m' (invert_freq_ID_outarray, k) = iter (Z.to_nat j) F (arr_of m invert_freq_ID_outarray) k).
+  assert (H : I (Z.of_nat (Z.to_nat nsamps)) (seq_run (threads_of (invert_freq_thread nchans nsamps) (Z.to_nat nsamps)) m)).
+  { apply seq_run_threads_inv.
+    - split; [reflexivity|]. intro; reflexivity.
+    - intros i m' Hi [Hfr Hout]. unfold invert_freq_thread, invert_freq_body. rewrite run1_thread_of.
+      rewrite exec_bind. cbn [exec snd].
+      match goal with |- I _ (snd (exec (for_ ?n ?b ?s) m')) =>
+        pose proof (exec_for_inv n b (fun j _ m'' => (forall l, fst l <> invert_freq_ID_outarray -> m'' l = m l) /\
+            forall k, m'' (invert_freq_ID_outarray, k) = iter (Z.to_nat j) (G i) (arr_of m' invert_freq_ID_outarray) k) s m') as HI end.
+      cbv beta in HI. destruct HI as [Hfr2 Hout2].
+      + split; [exact Hfr|]. intro; reflexivity.
+      + intros j t m'' Hj [Hf Ho]. cbn [exec bind rd wr fst snd]. split.
+        * intros l Hl. rewrite mupd_off by assumption. now apply Hf.
+        * intro k'. rewrite mupd_at. replace (Z.to_nat (j + 1)) with (S (Z.to_nat j)) by lia. cbn [iter].
+          rewrite Z2Nat.id by lia. unfold G at 1, upd. destruct (k' =? nchans * i + j); [|apply Ho].
+          unfold array, arr_of. apply Hf. discriminate.
+      + split; [exact Hfr2|]. intro k'. rewrite Hout2, Nat2Z.id.
+        replace (Z.to_nat (i + 1)) with (S (Z.to_nat i)) by lia. cbn [iter]. rewrite Z2Nat.id by lia.
+        unfold F at 1. unfold G. apply iter_upd_ext. intro. unfold arr_of. apply Hout. }
   unfold I in H. destruct H as [_ H]. rewrite Nat2Z.id in H. apply H. Qed.
